@@ -231,6 +231,9 @@ def verify_canary(unit, scratch):
     js = res["json"]
     if js is None or "verification-results" not in js:
         raise NoVerdict("canary build of unit `%s` rejected: %s" % (unit, res["stderr"][-1500:]))
+    if js["verification-results"].get("encountered-vir-error"):
+        hard = [e for e in parse_stderr(res["stderr"]) if e["level"] == "error" and not e["msg"].startswith("aborting")]
+        raise NoVerdict("canary build of unit `%s` rejected by the verifier: %s" % (unit, hard[0]["text"] if hard else "?"))
     text = open(path, encoding="utf-8").read().split("\n")
     canary_lines = [n + 1 for n, l in enumerate(text) if "// vacuity canary" in l]
     errs = [e for e in parse_stderr(res["stderr"]) if e["level"] == "error" and e["line"] is not None]
